@@ -246,6 +246,41 @@ namespace Moclo
 theorem rc_isRotated {w w' : Word} (h : w ~r w') : rc w ~r rc w' := by
   unfold rc; exact (h.map _).reverse
 
+/-- strand symmetry of fitting on the circle, with the whole mirrored window made explicit: the window of the
+reverse complement is the reverse complement of the consumed letters followed by the reverse complement of
+the rest of the circle -/
+theorem fits_rc_circular_window {p : Pat} {w : Word} {i : Nat} {ms : List Nat} {e : Nat} (hi : i < w.length)
+    (h : Run p (window w i) 0 ms e) :
+    ∃ j, j < w.length ∧ Run (rcPattern p) (window (rc w) j) 0 (ms.reverse.map (fun m => e - m)) e ∧
+      window (rc w) j = rc ((window w i).take e) ++ rc ((window w i).drop e) ∧ e ≤ w.length := by
+  have hn : 0 < w.length := by omega
+  have hwl := window_length w i (Nat.le_of_lt hi)
+  have he : e ≤ w.length := by have := h.bounds.2.1; omega
+  set text := window w i with htext
+  have hA := h.restrict
+  simp only [Nat.sub_zero] at hA
+  have hAl : (text.take e).length = e := by simp [hwl]; omega
+  have hrc := Run.rc_exact p (text.take e) ms (by rw [hAl]; exact hA)
+  rw [hAl] at hrc
+  have hrot : (rc (text.take e) ++ rc (text.drop e)) ~r rc w := by
+    have h1 : text ~r w := by rw [htext, window_eq_rotate w i (Nat.le_of_lt hi)]; exact List.IsRotated.forall _ _
+    have h2 : rc text ~r rc w := rc_isRotated h1
+    have h3 : rc text = rc (text.drop e) ++ rc (text.take e) := by
+      conv_lhs => rw [← List.take_append_drop e text]
+      exact rc_append' _ _
+    rw [h3] at h2
+    exact (List.isRotated_append).trans h2
+  obtain ⟨j0, hj0⟩ := hrot.symm
+  have hw : window (rc w) (j0 % w.length) = rc (text.take e) ++ rc (text.drop e) := by
+    rw [window_eq_rotate _ _ (by rw [rc_length']; exact Nat.le_of_lt (Nat.mod_lt _ hn))]
+    have : (rc w).rotate (j0 % w.length) = (rc w).rotate j0 := by
+      conv_rhs => rw [← List.rotate_mod]
+      rw [rc_length']
+    rw [this, hj0]
+  refine ⟨j0 % w.length, Nat.mod_lt _ hn, ?_, hw, he⟩
+  rw [hw]
+  exact Run.extend hrc _
+
 /-- **strand symmetry of fitting, on the circle**: if a pattern fits the window of a circular record at some
 start, its reverse-complement pattern fits a window of the reverse-complemented record, consuming the same
 number of letters, with mirrored group boundaries — and the letters it consumes are the reverse complement of
